@@ -241,7 +241,7 @@ func TestC06(t *testing.T) {
 		if replaying {
 			h = rp.History
 		} else {
-			h = genHistory(t, histOpts{minOps: 3, maxOps: 6, varBias: 35, checkpoints: false, multiPart: true, sameInterval: 0, uniqueSlots: true})
+			h = genHistory(t, histOpts{minOps: 3, maxOps: 6, varBias: 35, checkpoints: false, multiPart: true, sameInterval: 30})
 		}
 		cr, err := runTraced(h)
 		if err != nil {
@@ -330,7 +330,7 @@ func TestC06(t *testing.T) {
 				if tg.end <= first {
 					// intact, committed, precedes the damage: must be applied
 					for _, w := range mine {
-						if !present[w.tag] {
+						if !present[w.tag] && !overwrittenLater(h, rows, w, damaged, present) {
 							if dup && movedAside && hx.KFOpen("KF-06d") {
 								rec.Exclude("KF-06d")
 								rec.KF("KF-06d", "a WAL containing the same transaction group twice is moved aside and nothing is replayed")
@@ -350,6 +350,21 @@ func TestC06(t *testing.T) {
 		rec.Flush()
 	})
 	rec.Flush()
+}
+
+// overwrittenLater: w went to a fixed-length interval that a later, undamaged transaction of the
+// history also wrote, and that later value is what the bucket holds (replay applies transactions
+// in commit order, so the earlier value is legitimately gone).
+func overwrittenLater(h *wl.History, rows []wrRow, w wrRow, damaged map[int]bool, present map[int64]bool) bool {
+	if h.Buckets[w.bucket].Variable {
+		return false
+	}
+	for _, w2 := range rows {
+		if w2.bucket == w.bucket && w2.slot == w.slot && w2.op > w.op && w2.lastInOp && !damaged[w2.op] && present[w2.tag] {
+			return true
+		}
+	}
+	return false
 }
 
 func tgSummary(tgs []tgRange) string {
